@@ -16,6 +16,7 @@ import (
 
 	"github.com/IBM/sarama"
 	saramamock "github.com/IBM/sarama/mocks"
+	"google.golang.org/protobuf/encoding/protowire"
 	"google.golang.org/protobuf/proto"
 	"google.golang.org/protobuf/reflect/protoreflect"
 
@@ -139,9 +140,34 @@ func c19Msgs(t []string) ([]*entities.Message, int) {
 	return msgs, nrecs
 }
 
+func c19Consume(topic string, fresh func() proto.Message, v []byte) (s string) {
+	defer func() {
+		if r := recover(); r != nil {
+			s = "short"
+		}
+	}()
+	target := fresh()
+	kc := consumer.NewKafkaConsumer(consumer.ConsumerInput{KafkaTopic: topic, KafkaProtoSchema: target, MsgDelimitWithLen: true})
+	if err := kc.DecodeAndPrintMsg(&sarama.ConsumerMessage{Topic: topic, Value: v}); err != nil {
+		return "err"
+	}
+	return c19Dump(target)
+}
+
 func c19One(c []string) string {
 	convName, topic := c[0], c[1]
 	conv, fresh := c19Schema(convName)
+	if len(c) > 3 && c[3] == "RAW" {
+		var v []byte
+		for _, h := range c[5:] {
+			b, err := hex.DecodeString(h)
+			if err != nil {
+				panic(err)
+			}
+			v = append(v, b...)
+		}
+		return "raw " + c19Consume(topic, fresh, v)
+	}
 	msgs, nrecs := c19Msgs(c[3:])
 	rep := &mockReporter{}
 	cfg := sarama.NewConfig()
@@ -200,19 +226,7 @@ func c19One(c []string) string {
 	for _, m := range got {
 		v, _ := m.Value.Encode()
 		// the real consumer-side decoder on this Kafka message
-		dump := func() (s string) {
-			defer func() {
-				if r := recover(); r != nil {
-					s = "short"
-				}
-			}()
-			target := fresh()
-			kc := consumer.NewKafkaConsumer(consumer.ConsumerInput{KafkaTopic: topic, KafkaProtoSchema: target, MsgDelimitWithLen: true})
-			if err := kc.DecodeAndPrintMsg(&sarama.ConsumerMessage{Topic: m.Topic, Value: v}); err != nil {
-				return "err"
-			}
-			return c19Dump(target)
-		}()
+		dump := c19Consume(m.Topic, fresh, v)
 		fmt.Fprintf(&sb, " ; %s %d", m.Topic, (len(v)+63)/64)
 		for i := 0; i < len(v); i += 64 {
 			j := i + 64
@@ -484,6 +498,25 @@ func runC19(env *Env) {
 			run(fmt.Sprintf("%d flows utf8bad %s D 1 2 %s %s %s", conv, g.header(false), BytesArg([]byte("tcpState")), v, g.elem(c19Mapped[8], false)))
 		}
 	}
+	// RAW stream: hand-made values for the consumer side (unknown fields, repeats, non-canonical
+	// varints, uint32 overflow, wrong wire types, bad field numbers, truncation, invalid UTF-8)
+	nraw := 300
+	if env.Thorough() {
+		nraw = 20000
+	}
+	for i := 0; i < nraw; i++ {
+		env.Count("raw/consumer-only")
+		v := c19RawValue(r)
+		chunks := []string{}
+		for j := 0; j < len(v); j += 64 {
+			k := j + 64
+			if k > len(v) {
+				k = len(v)
+			}
+			chunks = append(chunks, hex.EncodeToString(v[j:k]))
+		}
+		run(strings.TrimSpace(fmt.Sprintf("%d flows utf8ok RAW %d %s", 1+r.Intn(2), len(chunks), strings.Join(chunks, " "))))
+	}
 	// separate ill-typed stream: a mapped name carried by the wrong element kind (getter panic)
 	for i := 0; i < 30; i++ {
 		g := &c19Gen{r: r, valid: true}
@@ -498,4 +531,93 @@ func runC19(env *Env) {
 		}[r.Intn(6)]
 		run(fmt.Sprintf("%d flows %s %s D 1 %s %s D 2 %s 1 %s %s D 1 %s", 1+r.Intn(2), "utf8ok", g.header(false), g.record(1), g.header(false), g.record(1), bad, g.header(false), g.record(1)))
 	}
+}
+
+func c19RawValue(r *Rng) []byte {
+	var p []byte
+	known := []int{1, 2, 3, 4, 5, 6, 7, 8, 9, 10, 11, 12, 14, 19, 20, 25, 26, 27, 28, 33, 34, 35, 36}
+	isStr := map[int]bool{6: true, 7: true, 19: true, 20: true, 25: true, 26: true, 33: true, 36: true}
+	nf := r.Intn(7)
+	for i := 0; i < nf; i++ {
+		switch r.Intn(14) {
+		case 0: // unknown varint field
+			p = protowire.AppendTag(p, protowire.Number(100+r.Intn(1000)), protowire.VarintType)
+			p = protowire.AppendVarint(p, r.U64())
+		case 1: // unknown fixed64
+			p = protowire.AppendTag(p, protowire.Number(100+r.Intn(1000)), protowire.Fixed64Type)
+			p = protowire.AppendFixed64(p, r.U64())
+		case 2: // unknown fixed32 (sometimes on a known number: wrong wire type)
+			n := 100 + r.Intn(1000)
+			if r.Bool() {
+				n = known[r.Intn(len(known))]
+			}
+			p = protowire.AppendTag(p, protowire.Number(n), protowire.Fixed32Type)
+			p = protowire.AppendFixed32(p, uint32(r.U64()))
+		case 3: // unknown bytes (any content)
+			p = protowire.AppendTag(p, protowire.Number(100+r.Intn(1000)), protowire.BytesType)
+			p = protowire.AppendBytes(p, r.Bytes(r.Intn(6)))
+		case 4: // non-canonical varint for a known numeric field
+			p = protowire.AppendTag(p, 8, protowire.VarintType)
+			p = append(p, 0x85, 0x80, 0x00)
+		case 5: // uint32 field with a value above 2^32
+			p = protowire.AppendTag(p, protowire.Number([]int{1, 2, 3, 4, 5, 8, 9, 10, 34}[r.Intn(9)]), protowire.VarintType)
+			p = protowire.AppendVarint(p, 1<<32+uint64(r.Intn(1000))+r.U64()<<33)
+		case 6: // known string field with varint wire type / numeric field as bytes
+			if r.Bool() {
+				p = protowire.AppendTag(p, 19, protowire.VarintType)
+				p = protowire.AppendVarint(p, r.U64())
+			} else {
+				p = protowire.AppendTag(p, 11, protowire.BytesType)
+				p = protowire.AppendBytes(p, r.Bytes(r.Intn(4)))
+			}
+		case 7: // invalid UTF-8 in a known string field (rarely)
+			s := "ok"
+			if r.Intn(3) == 0 {
+				s = c19InvalidStrings[r.Intn(len(c19InvalidStrings))]
+			}
+			p = protowire.AppendTag(p, 20, protowire.BytesType)
+			p = protowire.AppendString(p, s)
+		default: // a well-formed known field (repeats happen: last wins)
+			n := known[r.Intn(len(known))]
+			if isStr[n] {
+				p = protowire.AppendTag(p, protowire.Number(n), protowire.BytesType)
+				p = protowire.AppendString(p, c19ValidStrings[r.Intn(len(c19ValidStrings))])
+			} else {
+				p = protowire.AppendTag(p, protowire.Number(n), protowire.VarintType)
+				p = protowire.AppendVarint(p, c19Num(r, 64))
+			}
+		}
+	}
+	switch r.Intn(16) {
+	case 0: // truncation
+		if len(p) > 0 {
+			p = p[:r.Intn(len(p))]
+		}
+	case 1: // field number 0
+		p = append(p, 0x00, 0x01)
+	case 2: // field number 2^29 (too large) / 2^29-1 (largest valid)
+		p = protowire.AppendVarint(p, uint64(1<<29-r.Intn(2))<<3)
+		p = protowire.AppendVarint(p, 7)
+	case 3: // length beyond the end
+		p = protowire.AppendTag(p, 19, protowire.BytesType)
+		p = protowire.AppendVarint(p, uint64(5+r.Intn(100)))
+		p = append(p, 'a', 'b')
+	case 4: // 10-byte varint that overflows 64 bits / one that does not
+		p = protowire.AppendTag(p, 12, protowire.VarintType)
+		p = append(p, 0xff, 0xff, 0xff, 0xff, 0xff, 0xff, 0xff, 0xff, 0xff, byte(1+r.Intn(2)))
+	case 5: // reserved wire types 6 / 7
+		p = protowire.AppendVarint(p, uint64(50<<3|(6+r.Intn(2))))
+		p = append(p, 1)
+	}
+	prefix := make([]byte, 4)
+	if r.Intn(4) > 0 { // the consumer does not look at the prefix
+		prefix[3] = byte(len(p))
+		prefix[2] = byte(len(p) >> 8)
+	} else {
+		copy(prefix, r.Bytes(4))
+	}
+	if r.Intn(25) == 0 {
+		return r.Bytes(r.Intn(4)) // shorter than the delimiter
+	}
+	return append(prefix, p...)
 }
